@@ -30,6 +30,8 @@ partial def seqLoop (h : IO.FS.Stream) (cs : Spec.Check.CS) (script : String) (l
       | .ok () => seqLoop h cs' script (lineNo + 1) false nScripts nFailed nOps nEv nDead nLoads
       | .error e =>
         IO.println s!"FAIL script={script} line={lineNo} :: {e} :: {line}"
+        if (← IO.getEnv "VERIF_DEBUG").isSome then
+          IO.println s!"  STATE now={cs'.s.now} max={cs'.s.maximum} total={cs'.s.totalWeight} m={cs'.s.m.map (fun p => (p.1, p.2.val, p.2.weight, p.2.exp, p.2.ref))} inflight={cs'.s.inflight}"
         seqLoop h cs' script (lineNo + 1) true nScripts (nFailed + 1) nOps nEv nDead nLoads
 
 def main (args : List String) : IO UInt32 := do
